@@ -1,8 +1,87 @@
 import AslModel.Xdl
-/-! # C06 — placeholder while the theorems are being written -/
-namespace C06
-open AslModel.Xdl
+import AslProofs.Xdl
+import AslProofs.XdlChunks
+/-!
+# C06 — JSON/XDL decoding is total, memory-safe and chunk-independent (JSON conformance: see below)
 
-theorem init_value : value init = none := by decide
+Property theorems only.  All statements are about `AslModel.Xdl` (the transcription of `XdlParser` that
+the driver `asl_c06` runs against the real library on every check).  In the model `none` means "the code
+would call `top()`/`pop()` on an empty `Stack`, index a `String` past its terminator, or re-read the
+same byte for ever"; a chunk is a C string (it ends at its first NUL).
+-/
+namespace C06
+open AslModel.Xdl AslProofs.Xdl
+
+/-! ## totality and memory safety on every byte string, fed in any chunks -/
+
+/-- the parser never underflows a stack / over-indexes a buffer / loops, whatever bytes arrive in
+    whatever chunks; and the invariant that guarantees it holds afterwards -/
+theorem parse_safe (chunks : List Bytes) : ∃ q, parseChunks init chunks = some q ∧ Inv q :=
+  parseChunks_ok chunks init inv_init
+
+/-- in every state reachable by feeding any chunks, consuming one more byte is safe and dispatches it
+    at most twice (one push-back); a `return` only happens in state ERR -/
+theorem step_safe (chunks : List Bytes) (q : PState) (h : parseChunks init chunks = some q) (c : UInt8) :
+    ∃ b q', stepByte q c = some (b, q') ∧ (b = true → q'.state = .ERR) := by
+  obtain ⟨q0, h0, hi⟩ := parse_safe chunks
+  rw [h] at h0
+  cases h0
+  obtain ⟨b, q', hs, _, he⟩ := stepByte_ok q c hi
+  exact ⟨b, q', hs, he⟩
+
+/-- `Json::decode` / `Xdl::decode` terminate on every byte string with either an invalid Var or a value -/
+theorem decode_total (text : Bytes) : ∃ r : Option JV, decode text = some r := by
+  obtain ⟨p1, h1, i1⟩ := parse_ok init text inv_init
+  obtain ⟨p2, h2, _⟩ := parse_ok p1 [32] i1
+  exact ⟨value p2, by simp [decode, decodeFrom, h1, h2]⟩
+
+/-- the stacks `value()` reads are never empty: `_lists[0]` is the root array, `_context.top()` exists -/
+theorem value_reads_in_bounds (chunks : List Bytes) (q : PState) (h : parseChunks init chunks = some q) :
+    q.ctx ≠ [] ∧ (q.state ≠ .ERR → ∃ rev, q.lists.getLast? = some (.arr rev)) := by
+  obtain ⟨q0, h0, hi⟩ := parse_safe chunks
+  rw [h] at h0
+  cases h0
+  obtain ⟨base, hc, hb, hg⟩ := hi
+  constructor
+  · rcases hc with ⟨_, hc⟩ | ⟨_, hc | hc | hc | hc⟩ <;> simp [hc]
+    intro hbase
+    simp [hbase, BaseOK] at hb
+  · intro hne
+    exact shape_last _ _ (hg hne).shape
+
+/-! ## chunk independence, for every partition of a NUL-free text -/
+
+/-- feeding the chunks one by one and then flushing gives exactly `decode` of the whole text -/
+theorem chunk_indep (chunks : List Bytes) (hn : ∀ c ∈ chunks, (0 : UInt8) ∉ c) :
+    ((parseChunks init chunks).bind fun p => (parse p [32]).map value) = decode chunks.flatten := by
+  obtain ⟨x, y, hx, hy, hix, hiy, hr⟩ := chunks_R chunks hn init init (R.refl _) inv_init inv_init
+  obtain ⟨x', y', hx', hy', _, _, hr'⟩ := parse_R [32] hr hix hiy
+  simp [decode, decodeFrom, hx, hy, hx', hy', value_R hr']
+
+/-- also the observable after any number of chunks without the flush (`value()` polled between chunks) -/
+theorem chunk_indep_poll (chunks : List Bytes) (hn : ∀ c ∈ chunks, (0 : UInt8) ∉ c) :
+    (parseChunks init chunks).map value = (parse init chunks.flatten).map value := by
+  obtain ⟨x, y, hx, hy, _, _, hr⟩ := chunks_R chunks hn init init (R.refl _) inv_init inv_init
+  simp [hx, hy, value_R hr]
+
+/-- a text with NUL bytes is read as a C string: only the part before the first NUL is decoded -/
+theorem decode_stops_at_nul (a b : Bytes) (ha : (0 : UInt8) ∉ a) : decode (a ++ 0 :: b) = decode a := by
+  have h1 : cstr (a ++ 0 :: b) = a := by
+    unfold cstr
+    induction a with
+    | nil => simp
+    | cons x t ih =>
+      have hx : x ≠ 0 := fun h0 => ha (by simp [h0])
+      have ht : (0 : UInt8) ∉ t := fun h0 => ha (by simp [h0])
+      simp [hx]
+      simpa using ih ht
+  simp [decode, decodeFrom, parse, h1, cstr_of_nonul a ha]
+
+/-! ## non-vacuity: the model decodes, rejects, and depends on its input -/
+
+example : decode [91, 49, 44, 34, 97, 34, 93] = some (some (.arr [.int 1, .str [97]])) := by rfl  -- [1,"a"]
+example : decode [91, 49, 44] = some none := by rfl                                              -- [1,
+example : ∃ q, parseChunks init [[91, 49], [44, 50, 93]] = some q ∧ value q = some (.arr [.int 1, .int 2]) :=
+  ⟨_, rfl, by rfl⟩
 
 end C06
